@@ -497,4 +497,340 @@ theorem quadP_quadAlong (n : Nat) (c0 : Rat) (b : Nat → Rat) (q : Nat → Nat 
   rw [l3]
   ring
 
+/-- **curl(grad f) = 0**, exactly, at every cell of every fully valid 3-d mesh — any cell
+counts (also 1 or 2 per axis), any anisotropic cell sizes, open and periodic directions in
+any combination: the two mixed second differences that make up each component are the
+same number because stencils along different axes commute. -/
+theorem curl_grad_zero (f g r : Fld) (hdims : DimsOk f) (hp : Plain f) (hnd : f.mesh.ndim = 3)
+    (hval : FullyValid f) (hg : grad f = .ok g) (hr : curl g = .ok r) :
+    ∀ i, InMesh f i → ∀ k, k < 3 → (r.data.get i).getD k 0 = 0 := by
+  obtain ⟨x, y, z, hxyz, hxy, hxz, hyz⟩ := dims3 f hdims hnd
+  obtain ⟨_, g2, g3, g4, g5⟩ := grad_eq f g hdims hg
+  have hl2 : 2 ≤ f.mesh.region.dims.length := by rw [hxyz]; simp
+  obtain ⟨m1, m2⟩ := grad_meta f g hp hl2 hg
+  rw [g2, hnd] at m1 m2
+  rw [posVdims3] at m1
+  rw [posVmap3 g.mesh x y z (by rw [g3]; exact hxyz) (by rw [g3]; exact hnd)] at m2
+  have hgd : DimsOk g := by unfold DimsOk; rw [g3]; exact hdims
+  obtain ⟨r1, r2, r3⟩ := rDimLast_pos g x y z hxy hxz hyz m2
+  have hρ : ∀ d, d < 3 → (fun d => d) d < 3 ∧
+      rDimLast g (g.mesh.region.dims.getD d "") = some (["x", "y", "z"].getD ((fun d => d) d) "") := by
+    intro d hd
+    rw [g3, hxyz]
+    refine ⟨hd, ?_⟩
+    match d, hd with
+    | 0, _ => exact r1
+    | 1, _ => exact r2
+    | 2, _ => exact r3
+  obtain ⟨_, _, _, _, _, c6⟩ := curl_eq g r ["x", "y", "z"] (fun d => d) hgd m1 (by rw [g2, hnd]; rfl) (by decide) hρ hr
+  have hgv : FullyValid g := fun i => by rw [g4 i]; exact hval i
+  intro i hi k hk
+  obtain ⟨_, hin⟩ := hi
+  have i0 := hin 0 (by omega)
+  have i1 := hin 1 (by omega)
+  have i2 := hin 2 (by omega)
+  have dd : ∀ a b, a < 3 → b < 3 → a ≠ b → i.getD a 0 < f.mesh.nAt a → i.getD b 0 < f.mesh.nAt b →
+      D g a 1 b i = DD f a b 0 i := by
+    intro a b _ hb hab ha' hb'
+    exact D_of_D f g a b 0 b i hval hgv g3 (fun i' => g5 i' b (by omega)) hab ha' hb'
+  obtain ⟨e0, e1, e2⟩ := c6 i
+  match k, hk with
+  | 0, _ => rw [e0, dd 1 2 (by omega) (by omega) (by omega) i1 i2, dd 2 1 (by omega) (by omega) (by omega) i2 i1,
+              DD_comm f 1 2 0 i (by omega)]; ring
+  | 1, _ => rw [e1, dd 2 0 (by omega) (by omega) (by omega) i2 i0, dd 0 2 (by omega) (by omega) (by omega) i0 i2,
+              DD_comm f 2 0 0 i (by omega)]; ring
+  | 2, _ => rw [e2, dd 0 1 (by omega) (by omega) (by omega) i0 i1, dd 1 0 (by omega) (by omega) (by omega) i1 i0,
+              DD_comm f 0 1 0 i (by omega)]; ring
+
+/-- **div(curl v) = 0**, exactly, at every cell of every fully valid 3-d mesh, for every
+one-to-one pairing of the three stored components with the three axes (`ρ`), open and
+periodic directions alike. -/
+theorem div_curl_zero (v c d : Fld) (vs : List String) (ρ : Nat → Nat) (hdims : DimsOk v)
+    (hv : v.vdims = some vs) (hvl : vs.length = v.nvdim) (hvd : hasDup vs = false)
+    (hρ : ∀ a, a < 3 → ρ a < 3 ∧ rDimLast v (v.mesh.region.dims.getD a "") = some (vs.getD (ρ a) ""))
+    (hval : FullyValid v) (hc : curl v = .ok c) (hd : div c = .ok d) :
+    ∀ i, InMesh v i → (d.data.get i).getD 0 0 = 0 := by
+  obtain ⟨_, hnd, c3, c4, c5, c6⟩ := curl_eq v c vs ρ hdims hv hvl hvd hρ hc
+  obtain ⟨x, y, z, hxyz, hxy, hxz, hyz⟩ := dims3 v hdims hnd
+  obtain ⟨m1, m2⟩ := curl_meta v c hc
+  rw [posVdims3] at m1
+  rw [posVmap3 v.mesh x y z hxyz (by unfold Mesh.ndim at hnd; exact hnd)] at m2
+  have hcd : DimsOk c := by unfold DimsOk; rw [c4]; exact hdims
+  have hσ : ∀ k, k < c.nvdim → (fun k => k) k < c.mesh.ndim ∧
+      Fld.lookup c.vmap (["x", "y", "z"].getD k "") = some (c.mesh.region.dims.getD ((fun k => k) k) "") := by
+    intro k hk
+    rw [c3] at hk
+    rw [c4, hnd, hxyz, m2]
+    refine ⟨hk, ?_⟩
+    match k, hk with
+    | 0, _ => rfl
+    | 1, _ => rfl
+    | 2, _ => rfl
+  obtain ⟨_, _, _, _, d5⟩ := div_eq c d ["x", "y", "z"] (fun k => k) hcd m1 (by rw [c3]; rfl) (by decide) hσ hd
+  have hcv : FullyValid c := fun i => by rw [c5 i]; exact hval i
+  intro i hi
+  obtain ⟨_, hin⟩ := hi
+  have i0 := hin 0 (by omega)
+  have i1 := hin 1 (by omega)
+  have i2 := hin 2 (by omega)
+  rw [d5 i, c3]
+  simp only [sumTo]
+  rw [D_of_sub v c 0 1 (ρ 2) 2 (ρ 1) 0 i hval hcv c4 (fun i' => (c6 i').1) (by omega) (by omega) i0 i1 i2,
+      D_of_sub v c 1 2 (ρ 0) 0 (ρ 2) 1 i hval hcv c4 (fun i' => (c6 i').2.1) (by omega) (by omega) i1 i2 i0,
+      D_of_sub v c 2 0 (ρ 1) 1 (ρ 0) 2 i hval hcv c4 (fun i' => (c6 i').2.2) (by omega) (by omega) i2 i0 i1,
+      DD_comm v 0 1 (ρ 2) i (by omega), DD_comm v 0 2 (ρ 1) i (by omega), DD_comm v 1 2 (ρ 0) i (by omega)]
+  ring
+
+/-- **Gradient is exact** on fields that are polynomials of degree ≤ 2 along every axis (in
+particular on every polynomial of total degree ≤ 2, `quadP_quadAlong`): component `a` of
+the result is the analytic partial derivative `∂P/∂x_a` at every cell centre. -/
+theorem grad_exact_quadratic (f g : Fld) (P : (Nat → Rat) → Rat) (P1 P2 : Nat → (Nat → Rat) → Rat)
+    (hdims : DimsOk f) (hs : SampledFrom f 0 P)
+    (hq : ∀ a, a < f.mesh.ndim → QuadAlong P a (P1 a) (P2 a)) (hm : ExactMesh f) (h : grad f = .ok g) :
+    ∀ i, InMesh f i → ∀ a, a < f.mesh.ndim → (g.data.get i).getD a 0 = P1 a (coords f i) := by
+  obtain ⟨_, _, _, _, g5⟩ := grad_eq f g hdims h
+  intro i hi a ha
+  obtain ⟨hp, hn, hh⟩ := hm.2 a ha
+  rw [g5 i a ha]
+  exact (D_exact f a 0 i P (P1 a) (P2 a) hs (hq a ha) hm.1 hp hn hh (by rw [hi.1]; exact ha) (hi.2 a ha)).1
+
+/-- **Divergence is exact**: with stored component `c` sampling `P c` and mapped onto axis
+`σ c`, the result is `Σ_c ∂(P c)/∂x_{σ c}` at every cell centre. -/
+theorem div_exact_quadratic (f g : Fld) (vs : List String) (σ : Nat → Nat)
+    (P : Nat → (Nat → Rat) → Rat) (P1 P2 : Nat → (Nat → Rat) → Rat)
+    (hdims : DimsOk f) (hv : f.vdims = some vs) (hvl : vs.length = f.nvdim) (hvd : hasDup vs = false)
+    (hσ : ∀ c, c < f.nvdim → σ c < f.mesh.ndim ∧
+      Fld.lookup f.vmap (vs.getD c "") = some (f.mesh.region.dims.getD (σ c) ""))
+    (hs : ∀ c, c < f.nvdim → SampledFrom f c (P c) ∧ QuadAlong (P c) (σ c) (P1 c) (P2 c))
+    (hm : ExactMesh f) (h : div f = .ok g) :
+    ∀ i, InMesh f i → (g.data.get i).getD 0 0 = sumTo f.nvdim fun c => P1 c (coords f i) := by
+  obtain ⟨_, _, _, _, g5⟩ := div_eq f g vs σ hdims hv hvl hvd hσ h
+  intro i hi
+  rw [g5 i]
+  apply sumTo_congr
+  intro c hc
+  obtain ⟨hp, hn, hh⟩ := hm.2 (σ c) (hσ c hc).1
+  exact (D_exact f (σ c) c i (P c) (P1 c) (P2 c) (hs c hc).1 (hs c hc).2 hm.1 hp hn hh
+    (by rw [hi.1]; exact (hσ c hc).1) (hi.2 _ (hσ c hc).1)).1
+
+/-- **Curl is exact**: with `ρ a` the stored component paired with axis `a`, sampling
+`P (ρ a)`, and `P1 c a = ∂(P c)/∂x_a`, the result is the analytic curl in axis order. -/
+theorem curl_exact_quadratic (f g : Fld) (vs : List String) (ρ : Nat → Nat)
+    (P : Nat → (Nat → Rat) → Rat) (P1 P2 : Nat → Nat → (Nat → Rat) → Rat)
+    (hdims : DimsOk f) (hv : f.vdims = some vs) (hvl : vs.length = f.nvdim) (hvd : hasDup vs = false)
+    (hρ : ∀ d, d < 3 → ρ d < 3 ∧ rDimLast f (f.mesh.region.dims.getD d "") = some (vs.getD (ρ d) ""))
+    (hs : ∀ c, c < 3 → SampledFrom f c (P c) ∧ ∀ a, a < 3 → QuadAlong (P c) a (P1 c a) (P2 c a))
+    (hm : ExactMesh f) (h : curl f = .ok g) :
+    ∀ i, InMesh f i →
+      (g.data.get i).getD 0 0 = P1 (ρ 2) 1 (coords f i) - P1 (ρ 1) 2 (coords f i) ∧
+      (g.data.get i).getD 1 0 = P1 (ρ 0) 2 (coords f i) - P1 (ρ 2) 0 (coords f i) ∧
+      (g.data.get i).getD 2 0 = P1 (ρ 1) 0 (coords f i) - P1 (ρ 0) 1 (coords f i) := by
+  obtain ⟨_, hnd, _, _, _, g6⟩ := curl_eq f g vs ρ hdims hv hvl hvd hρ h
+  intro i hi
+  have ex : ∀ c a, c < 3 → a < 3 → D f a 1 c i = P1 c a (coords f i) := by
+    intro c a hc ha
+    obtain ⟨hp, hn, hh⟩ := hm.2 a (by omega)
+    exact (D_exact f a c i (P c) (P1 c a) (P2 c a) (hs c hc).1 ((hs c hc).2 a ha) hm.1 hp hn hh
+      (by rw [hi.1]; omega) (hi.2 a (by omega))).1
+  obtain ⟨e0, e1, e2⟩ := g6 i
+  have r0 := (hρ 0 (by omega)).1
+  have r1 := (hρ 1 (by omega)).1
+  have r2 := (hρ 2 (by omega)).1
+  rw [e0, e1, e2, ex _ 1 r2 (by omega), ex _ 2 r1 (by omega), ex _ 2 r0 (by omega), ex _ 0 r2 (by omega),
+    ex _ 0 r1 (by omega), ex _ 1 r0 (by omega)]
+  exact ⟨rfl, rfl, rfl⟩
+
+/-- **Laplacian is exact** (scalar field): `Σ_a ∂²P/∂x_a²` at every cell centre. -/
+theorem laplace_exact_quadratic (f g : Fld) (P : (Nat → Rat) → Rat) (P1 P2 : Nat → (Nat → Rat) → Rat)
+    (hdims : DimsOk f) (hn1 : f.nvdim = 1) (hs : SampledFrom f 0 P)
+    (hq : ∀ a, a < f.mesh.ndim → QuadAlong P a (P1 a) (P2 a)) (hm : ExactMesh f) (h : laplace f = .ok g) :
+    ∀ i, InMesh f i → (g.data.get i).getD 0 0 = sumTo f.mesh.ndim fun a => P2 a (coords f i) := by
+  obtain ⟨_, _, _, g5⟩ := laplace_eq_scalar f g hdims hn1 h
+  intro i hi
+  rw [g5 i]
+  apply sumTo_congr
+  intro a ha
+  obtain ⟨hp, hn, hh⟩ := hm.2 a ha
+  exact (D_exact f a 0 i P (P1 a) (P2 a) hs (hq a ha) hm.1 hp hn hh (by rw [hi.1]; exact ha) (hi.2 a ha)).2
+
+/-- **Laplacian is exact** (vector field): component `c` is the Laplacian of `P c`. -/
+theorem laplace_exact_quadratic_vector (f g : Fld) (vs : List String)
+    (P : Nat → (Nat → Rat) → Rat) (P1 P2 : Nat → Nat → (Nat → Rat) → Rat)
+    (hdims : DimsOk f) (hn : f.nvdim ≠ 1) (hv : f.vdims = some vs) (hvl : vs.length = f.nvdim)
+    (hvd : hasDup vs = false)
+    (hs : ∀ c, c < f.nvdim → SampledFrom f c (P c) ∧ ∀ a, a < f.mesh.ndim → QuadAlong (P c) a (P1 c a) (P2 c a))
+    (hm : ExactMesh f) (h : laplace f = .ok g) :
+    ∀ i, InMesh f i → ∀ c, c < f.nvdim →
+      (g.data.get i).getD c 0 = sumTo f.mesh.ndim fun a => P2 c a (coords f i) := by
+  obtain ⟨_, _, _, g5⟩ := laplace_eq_vector f g vs hdims hn hv hvl hvd h
+  intro i hi c hc
+  rw [g5 i c hc]
+  apply sumTo_congr
+  intro a ha
+  obtain ⟨hp, hn', hh⟩ := hm.2 a ha
+  exact (D_exact f a c i (P c) (P1 c a) (P2 c a) (hs c hc).1 ((hs c hc).2 a ha) hm.1 hp hn' hh
+    (by rw [hi.1]; exact ha) (hi.2 a ha)).2
+
+/-- **Gradient accepts** every plain scalar field on a well-formed mesh (the converse of the
+refusal): together with `grad_refusal`, `grad` is refused exactly for non-scalar fields. -/
+theorem grad_accepts (f : Fld) (hp : Plain f) (hdims : DimsOk f) (hpos : 1 ≤ f.mesh.ndim) :
+    ∃ g, grad f = .ok g := by
+  unfold grad
+  have h1 : ¬ (f.nvdim ≠ 1) := by rw [hp.1]; simp
+  simp only [h1, if_false]
+  obtain ⟨ds, hds⟩ := mapE_succeeds (fun d => diffDim f d 1) f.mesh.region.dims (fun d hd => by
+    obtain ⟨g, hg, _⟩ := diffDim_succeeds f d 1 (Or.inl rfl) hdims hd
+    exact ⟨g, hg⟩)
+  rw [hds]
+  simp only []
+  have hall : ∀ d ∈ ds, Plain d ∧ d.mesh = f.mesh := by
+    intro d hd
+    obtain ⟨l, e⟩ := mapE_ok _ _ _ hds
+    obtain ⟨k, hk, rfl⟩ := List.getElem_of_mem hd
+    have hk' := e k (by omega) hk
+    obtain ⟨g, hg, hm⟩ := diffDim_succeeds f (f.mesh.region.dims[k]'(by omega)) 1 (Or.inl rfl) hdims (List.getElem_mem _)
+    rw [hg] at hk'
+    injection hk' with hk'
+    subst hk'
+    exact ⟨diffDim_plain hp hg, hm⟩
+  cases ds with
+  | nil =>
+    obtain ⟨l, _⟩ := mapE_ok _ _ _ hds
+    rw [hdims.1] at l; simp at l; omega
+  | cons d0 ds' =>
+    simp only [stack]
+    have p0 := (hall d0 (by simp)).1
+    apply stackGo_plain_succeeds ds' d0 (by rw [p0.2.2, p0.1]; simp) (by rw [p0.1])
+    intro d hd
+    exact ⟨(hall d (by simp [hd])).1, by rw [(hall d (by simp [hd])).2, (hall d0 (by simp)).2]⟩
+
+/-- **Divergence accepts** every field with `nvdim = ndim` whose components are all mapped
+onto axes of the mesh (any labels, any dims names, any assignment `σ` — bijective or not). -/
+theorem div_accepts (f : Fld) (vs : List String) (σ : Nat → Nat) (hdims : DimsOk f)
+    (hn : f.nvdim = f.mesh.ndim) (hpos : 1 ≤ f.nvdim)
+    (hv : f.vdims = some vs) (hvl : vs.length = f.nvdim) (hvd : hasDup vs = false)
+    (hσ : ∀ c, c < f.nvdim → σ c < f.mesh.ndim ∧
+      Fld.lookup f.vmap (vs.getD c "") = some (f.mesh.region.dims.getD (σ c) "")) :
+    ∃ g, div f = .ok g := by
+  unfold div
+  have h1 : ¬ (f.nvdim ≠ f.mesh.region.ndim) := by unfold Mesh.ndim at hn; omega
+  simp only [h1, if_false, hv]
+  rw [allMapped_of f vs σ hdims (fun c hc => hσ c (by omega))]
+  simp only [Bool.not_true, Bool.false_eq_true, if_false]
+  have hterm : ∀ v ∈ vs, ∃ t, divTerm f v = .ok t := by
+    intro v hvm
+    obtain ⟨c, hc, rfl⟩ := mem_getD vs v hvm
+    obtain ⟨t, ht, _⟩ := divTerm_succeeds f vs hv hvd hdims c (σ c) hc (hσ c (by omega)).1 (hσ c (by omega)).2
+    exact ⟨t, ht⟩
+  obtain ⟨ts, hts⟩ := mapE_succeeds (divTerm f) vs hterm
+  rw [hts]
+  simp only []
+  obtain ⟨l, e⟩ := mapE_ok _ _ _ hts
+  apply sumF_plain_succeeds ts f.mesh
+  · intro he; subst he; simp at l; omega
+  · intro t ht
+    obtain ⟨k, hk, rfl⟩ := List.getElem_of_mem ht
+    have hk' := e k (by omega) hk
+    have hkv : k < vs.length := by omega
+    have hgk : vs[k] = vs.getD k "" := by
+      rw [List.getD_eq_getElem?_getD, List.getElem?_eq_getElem hkv]; rfl
+    obtain ⟨t, ht', hp, hm⟩ := divTerm_succeeds f vs hv hvd hdims k (σ k) hkv (hσ k (by omega)).1 (hσ k (by omega)).2
+    rw [hgk, ht'] at hk'
+    injection hk' with hk'
+    subst hk'
+    exact ⟨hp, hm⟩
+
+/-- **Curl accepts** every 3-component field on a 3-d mesh whose labels are all mapped onto
+axes and whose every axis is paired with a component (`ρ`). -/
+theorem curl_accepts (f : Fld) (vs : List String) (σ ρ : Nat → Nat) (hdims : DimsOk f)
+    (hn : f.nvdim = 3) (hnd : f.mesh.ndim = 3)
+    (hv : f.vdims = some vs) (hvl : vs.length = f.nvdim) (hvd : hasDup vs = false)
+    (hσ : ∀ c, c < 3 → σ c < 3 ∧ Fld.lookup f.vmap (vs.getD c "") = some (f.mesh.region.dims.getD (σ c) ""))
+    (hρ : ∀ d, d < 3 → ρ d < 3 ∧ rDimLast f (f.mesh.region.dims.getD d "") = some (vs.getD (ρ d) "")) :
+    ∃ g, curl f = .ok g := by
+  unfold curl
+  have h1 : ¬ (f.nvdim ≠ 3 ∨ f.mesh.region.ndim ≠ 3) := by unfold Mesh.ndim at hnd; omega
+  simp only [h1, if_false, hv]
+  rw [allMapped_of f vs σ hdims (fun c hc => by
+    have := hσ c (by omega); exact ⟨by omega, this.2⟩)]
+  simp only [Bool.not_true, Bool.false_eq_true, if_false]
+  obtain ⟨x, y, z, hxyz, _, _, _⟩ := dims3 f hdims hnd
+  have g0 : f.mesh.region.dims.getD 0 "" = x := by rw [hxyz]; rfl
+  have g1 : f.mesh.region.dims.getD 1 "" = y := by rw [hxyz]; rfl
+  have g2 : f.mesh.region.dims.getD 2 "" = z := by rw [hxyz]; rfl
+  have hl : ∀ d, d < 3 → ρ d < vs.length := fun d hd => by rw [hvl, hn]; exact (hρ d hd).1
+  obtain ⟨cx, hcx, px, mx⟩ := curlComp_succeeds f vs hv hvd hdims 2 1 1 2 (ρ 2) (ρ 1) (by omega) (by omega)
+    (hl 2 (by omega)) (hl 1 (by omega)) (hρ 2 (by omega)).2 (hρ 1 (by omega)).2
+  obtain ⟨cy, hcy, py, my⟩ := curlComp_succeeds f vs hv hvd hdims 0 2 2 0 (ρ 0) (ρ 2) (by omega) (by omega)
+    (hl 0 (by omega)) (hl 2 (by omega)) (hρ 0 (by omega)).2 (hρ 2 (by omega)).2
+  obtain ⟨cz, hcz, pz, mz⟩ := curlComp_succeeds f vs hv hvd hdims 1 0 0 1 (ρ 1) (ρ 0) (by omega) (by omega)
+    (hl 1 (by omega)) (hl 0 (by omega)) (hρ 1 (by omega)).2 (hρ 0 (by omega)).2
+  simp only [g0, g1, g2] at hcx hcy hcz
+  rw [hxyz]
+  simp only [hcx, hcy, hcz]
+  obtain ⟨cxy, hcxy⟩ := lshift_plain_succeeds cx cy py (by rw [mx, my]) (by rw [px.2.2, px.1]; simp) (by rw [px.1])
+  rw [hcxy]
+  simp only []
+  obtain ⟨m1, _, m2, _⟩ := lshift_ok hcxy
+  obtain ⟨_, a2⟩ := lshift_plain py (by rw [px.2.2, px.1]; simp) (by rw [px.1]) hcxy
+  exact lshift_plain_succeeds cxy cz pz (by rw [m1, mx, mz])
+    (by rw [a2, m2, px.1, py.1]; exact posVmap_length _ _) (by rw [m2, px.1]; omega)
+
+/-- **Laplacian accepts** every plain scalar field and every vector field with well-formed
+labels, on every well-formed mesh (no pairing with axes is needed). -/
+theorem laplace_accepts (f : Fld) (hdims : DimsOk f) (hpos : 1 ≤ f.mesh.ndim)
+    (hf : Plain f ∨ (1 < f.nvdim ∧ ∃ vs, f.vdims = some vs ∧ vs.length = f.nvdim ∧ hasDup vs = false)) :
+    ∃ g, laplace f = .ok g := by
+  unfold laplace
+  rcases hf with hp | ⟨hn, vs, hv, hvl, hvd⟩
+  · rw [if_pos hp.1]
+    obtain ⟨ts, hts, hne, hall⟩ := lapTerms_succeed f hp hdims hpos
+    rw [hts]
+    exact sumF_plain_succeeds ts f.mesh hne hall
+  · have h1 : ¬ (f.nvdim = 1) := by omega
+    rw [if_neg h1, hv]
+    simp only []
+    have hcomp : ∀ c, c < vs.length → ∃ t, lapComp f (vs.getD c "") = .ok t ∧ Plain t ∧ t.mesh = f.mesh := by
+      intro c hc
+      have hk := vdimIndex_getD f vs hv hvd c hc
+      obtain ⟨comp, hcomp⟩ := getComp_succeeds f _ c hk
+      have m1 := (getComp_ok hk hcomp).1
+      have hdd : DimsOk comp := by unfold DimsOk; rw [m1]; exact hdims
+      obtain ⟨ts, hts, hne, hall⟩ := lapTerms_succeed comp (getComp_plain hcomp) hdd (by rw [m1]; exact hpos)
+      unfold lapComp
+      rw [hcomp]
+      simp only []
+      rw [← m1, hts]
+      obtain ⟨t, ht⟩ := sumF_plain_succeeds ts comp.mesh hne hall
+      refine ⟨t, ht, sumF_plain (fun t' ht' => (hall t' ht').1) ht, ?_⟩
+      obtain ⟨t0, h0, s1, _⟩ := sumF_ok ts t (fun t' ht' => (hall t' ht').1.1) ht
+      rw [s1, (hall t0 (List.mem_of_mem_head? h0)).2]
+    obtain ⟨ds, hds⟩ := mapE_succeeds (lapComp f) vs (fun v hvm => by
+      obtain ⟨c, hc, rfl⟩ := mem_getD vs v hvm
+      obtain ⟨t, ht, _⟩ := hcomp c hc
+      exact ⟨t, ht⟩)
+    rw [hds]
+    simp only []
+    obtain ⟨l, e⟩ := mapE_ok _ _ _ hds
+    have hall : ∀ d ∈ ds, Plain d ∧ d.mesh = f.mesh := by
+      intro d hd
+      obtain ⟨k, hk, rfl⟩ := List.getElem_of_mem hd
+      have hk' := e k (by omega) hk
+      have hkv : k < vs.length := by omega
+      have hgk : vs[k] = vs.getD k "" := by
+        rw [List.getD_eq_getElem?_getD, List.getElem?_eq_getElem hkv]; rfl
+      obtain ⟨t, ht, hp, hm⟩ := hcomp k hkv
+      rw [hgk, ht] at hk'
+      injection hk' with hk'
+      subst hk'
+      exact ⟨hp, hm⟩
+    cases ds with
+    | nil => simp at l; omega
+    | cons d0 ds' =>
+      simp only [stack]
+      have p0 := (hall d0 (by simp)).1
+      apply stackGo_plain_succeeds ds' d0 (by rw [p0.2.2, p0.1]; simp) (by rw [p0.1])
+      intro d hd
+      exact ⟨(hall d (by simp [hd])).1, by rw [(hall d (by simp [hd])).2, (hall d0 (by simp)).2]⟩
+
 end DFV.C05
